@@ -48,11 +48,10 @@ IndentOK == \A k \in 1..Len(out) :
 
 \* every explicit newline of the input starts a new output line: the first word of every input
 \* line but the first is the first word on its output line
-\* (LET: TLC evaluates the sums once per state instead of once per use)
-NewlineOK == LET ob == OutBefore
-                 ib == InBefore
-                 starts == {ob[k] : k \in {j \in 1..Len(out) : out[j].ws # <<>>}}   \* words before each line start
-             IN \A L \in 2..Len(inp) : RealWords(inp[L]) # <<>> => ib[L] \in starts
+\* (quantification over singleton sets binds each sum to a value that TLC computes once per state)
+NewlineOK == \A ob \in {OutBefore}, ib \in {InBefore} :
+                \A starts \in {{ob[k] : k \in {j \in 1..Len(out) : out[j].ws # <<>>}}} :   \* words before each line start
+                   \A L \in 2..Len(inp) : RealWords(inp[L]) # <<>> => ib[L] \in starts
 
 \* A word may be regarded as sitting on the continuation line of a list entry (two more blanks)
 \* when a word starting with a dash opened an output line of the same input line before it: at
@@ -67,9 +66,9 @@ Excuse(k, ob, pos) == /\ Len(out[k].ws) = 1
                              w == out[k].ws[1]
                          IN \/ cfg.indent + w.len > cfg.width
                             \/ MaybeList(p.L, p.j) /\ cfg.indent + 2 + w.len > cfg.width
-WidthOK == LET ob == OutBefore
-               pos == InPos
-           IN \A k \in 1..Len(out) : out[k].len <= cfg.width \/ Excuse(k, ob, pos)
+WidthOK == \/ \A k \in 1..Len(out) : out[k].len <= cfg.width
+           \/ \A ob \in {OutBefore}, pos \in {InPos} :
+                 \A k \in 1..Len(out) : out[k].len <= cfg.width \/ Excuse(k, ob, pos)
 
 DeclOK == WordsOK /\ IndentOK /\ NewlineOK /\ WidthOK
 
